@@ -22,7 +22,7 @@
     container whose source regions counted fewer than 1 548 008 755 920 symbols in total
     ([C06_mergeable_from_statistics]: a greedily built tree of height h weighs at least Fib(h+2)). *)
 From FC Require Import Base.Res Region.Region Huffman.Huffman Huffman.HuffOpt Huffman.HuffTree Huffman.Bits Huffman.BitIter Huffman.EncoderOk Huffman.DecoderOk Huffman.RoundTrip Huffman.TableIns Huffman.TableOk Huffman.HuffRegion Huffman.HuffDepth Huffman.HuffBound.
-From FC Require Region.History.
+From FC Require Region.History Model.Wire Model.Machine.
 From Coq Require Import ZArith Permutation Sorted Lia.
 
 (** The greedy (Huffman) cost on the sorted weights is a lower bound for EVERY pairing of the
@@ -156,6 +156,15 @@ Proof. exact count_syms_keys. Qed.
 Theorem C06_refusal : forall h bytes bits stats v, ~ dom (HEnc h bytes bits, stats) v ->
   push huffman_region (HEnc h bytes bits, stats) v = Panic.
 Proof. exact huffman_refuses. Qed.
+
+(** ... and the refusal is a CLEAN one (D11): in the history machine the correspondence runs against the crate, a
+    refused push emits the panic observation and leaves every slot -- state and issued indices -- exactly as it was,
+    so every earlier item reads as before and later pushes continue where the accepted ones ended. *)
+Theorem C06_refusal_is_clean : forall (M : Model.Wire.MRegion) sl k f u v,
+  Model.Wire.of_u (Model.Wire.mw M) u = Some v ->
+  push (Model.Wire.mr M) (Model.Machine.s_st (@Model.Machine.get_slot M sl k)) v = Panic ->
+  @Model.Machine.step M sl (Model.Machine.OTryPush k f u) = ([Model.Machine.BPanic], Some sl).
+Proof. intros M sl k f u v Hu Hp. cbn [Model.Machine.step]. rewrite Hu, Hp. reflexivity. Qed.
 
 (** non-vacuity: a concrete merged container satisfies the hypotheses *)
 Example C06_nonvacuous :
